@@ -373,6 +373,14 @@ fn b_alphabet() -> Vec<(String, Vec<u8>)> {
     v.push(("first-id1-6B-unknown-mandatory-ext".into(), d.print()));
     v.push(("one-byte".into(), vec![0xC0]));
     v.push(("padding".into(), vec![0, 0, 0]));
+    // a complete packet whose label is readable but whose extension chain runs past the packet end (rejected): the
+    // nearest preceding start/complete packet is then THIS one
+    let mut d = Desc::complete(L6B, 0x0300, &[]);
+    d.ext_bytes = vec![0x01, 0x02];
+    v.push(("complete-6B-ext-chain-past-end".into(), d.print()));
+    let mut d = Desc::first(L3A, 0x0300, 0, 9, &[]);
+    d.ext_bytes = vec![0x01, 0x02];
+    v.push(("first-id0-3A-ext-chain-past-end".into(), d.print()));
     v
 }
 
@@ -446,8 +454,23 @@ impl System for BSys {
                             }
                         }
                         _ => {
-                            // a start/complete packet whose label cannot be read: nothing may be resolved from before it
-                            n.near = None;
+                            // a start/complete packet that does not parse as a whole. If its label field can still be read
+                            // (fixed header, type field and label inside the announced packet) it is the label carried by the
+                            // nearest preceding start/complete packet; a re-use label keeps what was there; otherwise nothing
+                            // may be resolved from before it
+                            let lbl_at = match hdr.map(|h| h.0) {
+                                Some(Kind::Complete) => Some(4usize),
+                                Some(Kind::First) => Some(7usize),
+                                _ => None,
+                            };
+                            let lt = hdr.map(|h| h.1).unwrap_or(0);
+                            let pkt_end = hdr.map(|h| h.2 + 2).unwrap_or(0).min(bytes.len());
+                            n.near = match (lbl_at, lt) {
+                                (Some(o), 0) if o + 6 <= pkt_end => Some(Lbl::Six(bytes[o..o + 6].try_into().unwrap())),
+                                (Some(o), 1) if o + 3 <= pkt_end => Some(Lbl::Three(bytes[o..o + 3].try_into().unwrap())),
+                                (Some(o), 3) if o <= pkt_end => s.near,
+                                _ => None,
+                            };
                         }
                     }
                     if let (Ok(p), Some(r)) = (&parsed, reported) {
@@ -518,7 +541,7 @@ pub fn b_sys() -> BSys {
 
 pub fn run(tier: Tier) -> i32 {
     let rep = Report::new("C04", tier);
-    rep.set_rule("A: closure of the product real Encapsulator x real Decapsulator (lock-step, every successfully produced packet fed at once) under send(label in {two 6-byte, 3-byte, broadcast, explicit re-use} x how in {complete, complete via encap_ext, first fragment on id 0/1 via encap and encap_ext, fail: small buffer / PDU too long / protocol type, encap_ext fail}), zero label, continue(id) (end fragment of an open train), reset of both sides, disable, enable, enable-with-max(1,2,3,255), and receiver-side noise (rejected intermediate / end fragments of unknown ids interleaved at any point); ghost = label intended per PDU and what the wire carried; B: closure of the receiver alone under 33 packets, with two and with one storage buffer (so that start packets are also rejected for lack of storage), (complete and first fragments of every label kind incl. re-use, continuation packets of known/unknown ids, rejected and malformed start packets, padding) and reset; oracle: a resolved re-use label equals the label of the nearest preceding start/complete packet of the frame. distinct = (op, outcome)");
+    rep.set_rule("A: closure of the product real Encapsulator x real Decapsulator (lock-step, every successfully produced packet fed at once) under send(label in {two 6-byte, 3-byte, broadcast, explicit re-use} x how in {complete, complete via encap_ext, first fragment on id 0/1 via encap and encap_ext, fail: small buffer / PDU too long / protocol type, encap_ext fail}), zero label, continue(id) (end fragment of an open train), reset of both sides, disable, enable, enable-with-max(1,2,3,255), and receiver-side noise (rejected intermediate / end fragments of unknown ids interleaved at any point); ghost = label intended per PDU and what the wire carried; B: closure of the receiver alone under 35 packets, with two and with one storage buffer (so that start packets are also rejected for lack of storage), (complete and first fragments of every label kind incl. re-use, continuation packets of known/unknown ids, rejected and malformed start packets, padding) and reset; oracle: a resolved re-use label equals the label of the nearest preceding start/complete packet of the frame. distinct = (op, outcome)");
     rep.assume("A: both label memories are reset at the same points; receiver storage is kept sufficient by re-provisioning delivered buffers; trains have 2 fragments");
     rep.assume("B: a start/complete packet whose label cannot be read (truncated, malformed) counts as carrying an unknown label: nothing may be resolved from before it; padding does not end the frame for the oracle (weaker than the crate, which clears its memory)");
     // the quick tier explores the same (closed) product as the thorough one: it closes in a few seconds
